@@ -206,7 +206,7 @@ def grammar():
     def paren(e):
         return e.map(lambda x: f"({x})")
 
-    return st.recursive(st.one_of(ident, lit, sent, fmt, fmt, benign, pubval, pathcall),
+    return st.recursive(st.one_of(ident, lit, sent, fmt, fmt, benign, pubval, pathcall, pathcall),
                         lambda e: st.one_of(member(e), member(e), call(e), call(e), index(e), lst(e), binop(e), paren(e)),
                         max_leaves=8)
 
